@@ -624,6 +624,7 @@ def instances(tier):
     out.append(inst_assign((2, 2), ((1, 1, None), (1, 1, None)), "exact"))
     out.append(inst_assign((2, 2), ("i", (1, 1, None)), "exact"))
     out.append(inst_assign((2, 2), ((1, 1, -1), "i"), "exact"))
+    out.append(inst_assign((2, 2), ("i", (1, 1, -1)), "exact"))  # an integer before a reversed slice
     out.append(inst_assign((2, 2), ((1, 1, None), (1, 0, -1)), "lastaxis"))
     out.append(inst_assign((2, 1), ((1, 1, 2), (0, 1, None)), "scalar"))
     out.append(inst_assign((2, 2), ("i", "i"), "scalar"))
